@@ -60,3 +60,6 @@ func VerifSortByLevel(rs []LevelRange) (out []LevelRange, idx []int) {
 func VerifLifecycleState() (init bool, loggers, appenders int) {
 	return global.init, len(global.loggers), len(global.appenders)
 }
+
+// VerifBufLen reports how many items are waiting in the async logger's channel.
+func (c *AsyncLogger) VerifBufLen() int { return len(c.buf) }
